@@ -24,9 +24,9 @@ def _alarm(signum, frame):
 def set_tier(tier):
     Budget.tier = tier
     if tier == 'thorough':
-        Budget.z3_ms = int(os.environ.get('PV_Z3_MS', 120000))
+        Budget.z3_ms = int(os.environ.get('PV_Z3_MS', 60000))
         Budget.samples = 400
-        Budget.thr_ms = Budget.z3_ms
+        Budget.thr_ms = int(os.environ.get('PV_THR_MS', 10000))     # per solver attempt on a threshold-path tolerance clause
         Budget.standin = 40
     else:
         Budget.z3_ms = int(os.environ.get('PV_Z3_MS', 20000))
